@@ -28,6 +28,7 @@ import Ldap3V.Lemmas.CodecsEnvelope
 import Ldap3V.Lemmas.CodecsReadEntry
 import Ldap3V.Props.C15
 import Ldap3V.Lemmas.FilterShape
+import Ldap3V.Lemmas.FilterNesting
 namespace Ldap3V
 open Spec Codecs
 
@@ -143,8 +144,8 @@ theorem C19_assertion_req_parsed (s : Bytes) :
     (Filter.parse s = none → encAssertion ((Filter.parse s).map Tag.toTlv) = .panic) := by
   refine ⟨?_, fun h => by rw [h]; rfl⟩
   intro t h hl hn
-  obtain ⟨_, h2, h3, _, h5, _⟩ := Filter.parse_shape h
-  obtain ⟨hw, hlen⟩ := Filter.parse_wf h hl
+  obtain ⟨_, h2, h3, _, h5, _⟩ := Filter.parse_shape (Filter.parse_core h)
+  obtain ⟨hw, hlen⟩ := Filter.parse_wf (Filter.parse_core h) hl
   have hd : t.toTlv.depth ≤ maxDepth := by
     rcases hn with hn | ⟨hh, hn⟩
     · simp only [maxDepth]; omega
